@@ -260,6 +260,18 @@ class Lam(Val):
         return "lambda"
 
 
+class Gen(Val):
+    """A generator expression bound to a name (or returned) before anything iterates it: its body runs when — and only if —
+    something consumes it (a call that receives it, a loop, a comprehension)."""
+
+    def __init__(self, node, env):
+        self.node, self.env, self.result = node, env, None
+
+    @property
+    def tag(self):
+        return f"genexp@{getattr(self.node, 'lineno', '?')}"
+
+
 class Bound(Val):
     """Method of an abstract value."""
 
